@@ -18,12 +18,12 @@ func init() {
 		},
 		Runs: func(tier string, seed int64) []*Run {
 			g := func(v int64) map[string]int64 { return map[string]int64{"verifC08N": v} }
-			jn := int64(11)
+			jn, pn := int64(11), int64(24)
 			if tier == "thorough" {
-				jn = 14
+				jn, pn = 14, 30
 			}
 			return []*Run{
-				{H: sym.Harness{Pkg: "meta/pngmeta", Func: "VerifHarness_C08_PNG_Arbitrary", SetGlobals: g(24)}, ExpectReach: []string{"both-loaded"}, SamplePaths: 3},
+				{H: sym.Harness{Pkg: "meta/pngmeta", Func: "VerifHarness_C08_PNG_Arbitrary", SetGlobals: g(pn), Workers: 14}, ExpectReach: []string{"both-loaded"}, SamplePaths: 3},
 				{H: sym.Harness{Pkg: "meta/pngmeta", Func: "VerifHarness_C08_PNG_Skeleton"}, ExpectReach: []string{"both-loaded"}, SamplePaths: 3},
 				{H: sym.Harness{Pkg: "meta/jpegmeta", Func: "VerifHarness_C08_JPEG_Arbitrary", SetGlobals: g(jn)}, ExpectReach: []string{"both-loaded"}, SamplePaths: 3},
 				{H: sym.Harness{Pkg: "meta/jpegmeta", Func: "VerifHarness_C08_JPEG_Skeleton"}, ExpectReach: []string{"both-loaded"}, SamplePaths: 3},
